@@ -1837,7 +1837,7 @@ func (c *DefaultCtx) configDependentPaths() {
 	c.path = append(c.path[:0], c.pathOriginal...)
 	// If UnescapePath enabled, we decode the path and save it for the framework user
 	if c.app.config.UnescapePath {
-		c.path = fasthttp.AppendUnquotedArg(c.path[:0], c.path)
+		c.path = appendUnescapedPath(c.path[:0], c.path)
 	}
 
 	// another path is specified which is for routing recognition only
@@ -1860,6 +1860,34 @@ func (c *DefaultCtx) configDependentPaths() {
 			int(c.detectionPath[1])<<8 |
 			int(c.detectionPath[2])
 	}
+}
+
+// appendUnescapedPath appends src to dst with its percent-encoded bytes decoded.
+// Unlike in form data, a '+' in a path is a plain plus sign and is left alone.
+// dst may be src[:0].
+func appendUnescapedPath(dst, src []byte) []byte {
+	unhex := func(c byte) byte {
+		switch {
+		case c >= '0' && c <= '9':
+			return c - '0'
+		case c >= 'a' && c <= 'f':
+			return c - 'a' + 10
+		case c >= 'A' && c <= 'F':
+			return c - 'A' + 10
+		}
+		return 16
+	}
+	for i := 0; i < len(src); i++ {
+		c := src[i]
+		if c == '%' && i+2 < len(src) {
+			if hi, lo := unhex(src[i+1]), unhex(src[i+2]); hi < 16 && lo < 16 {
+				c = hi<<4 | lo
+				i += 2
+			}
+		}
+		dst = append(dst, c)
+	}
+	return dst
 }
 
 // IsProxyTrusted checks trustworthiness of remote ip.
